@@ -616,6 +616,7 @@ def run_ops_impl(wn, wnenv, scenario, batch_size=None):
     if batch_size:
         _add.BATCH_SIZE = batch_size
     outs = []
+    mem_objects = {}
     try:
         for k, op in enumerate(scenario['ops']):
             if op.get('_reconnect'):
@@ -627,9 +628,17 @@ def run_ops_impl(wn, wnenv, scenario, batch_size=None):
                 f.write_text(docs.to_xml(op['res']), encoding='utf-8')
                 try:
                     if op.get('_mem'):
-                        # the in-memory route: load the file, hand the resource over
+                        # the in-memory route: load the file, hand the resource over; ops sharing a `_mem_id` hand
+                        # over the very same object again
                         from wn import lmf as _lmf
-                        wn.add_lexical_resource(_lmf.load(f, progress_handler=None), progress_handler=None)
+                        mid = op.get('_mem_id')
+                        if mid is not None and mid in mem_objects:
+                            res_obj = mem_objects[mid]
+                        else:
+                            res_obj = _lmf.load(f, progress_handler=None)
+                            if mid is not None:
+                                mem_objects[mid] = res_obj
+                        wn.add_lexical_resource(res_obj, progress_handler=None)
                     else:
                         wn.add(f, progress_handler=None)
                     outs.append({'ok': True})
